@@ -40,7 +40,7 @@ type Process struct {
 	confMtx             sync.Mutex
 	procConf            *types.ProcessConfig
 	procState           *types.ProcessState
-	stateMtx            sync.Mutex
+	stateMtx            *sync.Mutex // guards procState; shared by the successive instances of the process
 	procCond            sync.Cond
 	procStartedChan     chan struct{}
 	procStateChan       chan string
@@ -93,6 +93,9 @@ func NewProcess(opts ...ProcOpts) *Process {
 
 	for _, opt := range opts {
 		opt(proc)
+	}
+	if proc.stateMtx == nil {
+		proc.stateMtx = &sync.Mutex{}
 	}
 	proc.procColor = pclog.Name2Color(proc.getName())
 
@@ -174,9 +177,9 @@ loop:
 			break
 		}
 		p.setState(types.ProcessStateRestarting)
-		p.procState.Restarts += 1
+		restarts := p.incRestarts()
 		log.Info().Msgf("Restarting %s in %v second(s)... Restarts: %d",
-			p.getName(), p.getBackoff().Seconds(), p.procState.Restarts)
+			p.getName(), p.getBackoff().Seconds(), restarts)
 
 		select {
 		case <-p.procRunCtx.Done():
@@ -321,7 +324,7 @@ func (p *Process) isRestartable() bool {
 		if p.procConf.RestartPolicy.MaxRestarts == 0 {
 			return true
 		}
-		return p.procState.Restarts < p.procConf.RestartPolicy.MaxRestarts
+		return p.getRestarts() < p.procConf.RestartPolicy.MaxRestarts
 	}
 
 	// TODO consider if forking daemon should disable RestartPolicyAlways
@@ -329,7 +332,7 @@ func (p *Process) isRestartable() bool {
 		if p.procConf.RestartPolicy.MaxRestarts == 0 {
 			return true
 		}
-		return p.procState.Restarts < p.procConf.RestartPolicy.MaxRestarts
+		return p.getRestarts() < p.procConf.RestartPolicy.MaxRestarts
 	}
 
 	return false
@@ -360,7 +363,7 @@ func (p *Process) isDone() bool {
 
 func (p *Process) waitUntilReady() bool {
 	<-p.procReadyCtx.Done()
-	if p.procState.Health == types.ProcessHealthReady {
+	if p.getHealth() == types.ProcessHealthReady {
 		return true
 	}
 	log.Error().Msgf("Process %s was aborted and won't become ready", p.getName())
@@ -667,8 +670,8 @@ func (p *Process) handleOutput(pipe io.ReadCloser, output string, handler func(m
 				Msgf("error reading from %s", output)
 			break
 		}
-		if p.procConf.ReadyLogLine != "" && p.procState.Health == types.ProcessHealthUnknown && strings.Contains(line, p.procConf.ReadyLogLine) {
-			p.procState.Health = types.ProcessHealthReady
+		if p.procConf.ReadyLogLine != "" && strings.Contains(line, p.procConf.ReadyLogLine) &&
+			p.compareAndSetHealth(types.ProcessHealthUnknown, types.ProcessHealthReady) {
 			p.readyLogCancelFn(nil)
 		}
 		p.checkElevatedProcOutput(line)
@@ -767,11 +770,13 @@ func (p *Process) setState(state string) {
 	p.onStateChange(state)
 }
 
+// getState returns a snapshot of the process state
 func (p *Process) getState() *types.ProcessState {
 	p.updateProcState()
 	p.stateMtx.Lock()
 	defer p.stateMtx.Unlock()
-	return p.procState
+	state := *p.procState
+	return &state
 }
 
 type filterFn func(*types.ProcessState)
@@ -811,7 +816,7 @@ func (p *Process) setStateAndRun(state string, runnable func() error) error {
 func (p *Process) onStateChange(state string) {
 	switch state {
 	case types.ProcessStateSkipped:
-		p.setExitCode(1)
+		p.procState.ExitCode = 1 // the state lock is held by the caller
 	case types.ProcessStateRestarting:
 		fallthrough
 	case types.ProcessStateLaunching:
@@ -885,15 +890,15 @@ func (p *Process) onLivenessCheckEnd(_, isFatal bool, err string) {
 
 func (p *Process) onReadinessCheckEnd(isOk, isFatal bool, err string) {
 	if isFatal {
-		p.procState.Health = types.ProcessHealthNotReady
+		p.setHealth(types.ProcessHealthNotReady)
 		log.Info().Msgf("%s is not ready anymore - %s", p.getName(), err)
 		p.logBuffer.Write("Error: readiness check fail - " + err)
 		_ = p.internalStop()
 	} else if isOk {
-		p.procState.Health = types.ProcessHealthReady
+		p.setHealth(types.ProcessHealthReady)
 		p.readyCancelFn()
 	} else {
-		p.procState.Health = types.ProcessHealthNotReady
+		p.setHealth(types.ProcessHealthNotReady)
 	}
 }
 
@@ -911,6 +916,9 @@ func (p *Process) validateProcess() error {
 }
 
 func (p *Process) getOpenPorts(ports *types.ProcessPorts) error {
+	p.stateMtx.Lock()
+	pid := p.procState.Pid
+	p.stateMtx.Unlock()
 	socks, err := netstat.TCPSocks(func(s *netstat.SockTabEntry) bool {
 		return s.State == netstat.Listen
 	})
@@ -927,7 +935,7 @@ func (p *Process) getOpenPorts(ports *types.ProcessPorts) error {
 		return err
 	}
 	for _, e := range socks {
-		if e.Process != nil && e.Process.Pid == p.procState.Pid {
+		if e.Process != nil && e.Process.Pid == pid {
 			log.Debug().Msgf("%s is listening on %d", p.getName(), e.LocalAddr.Port)
 			ports.TcpPorts = append(ports.TcpPorts, e.LocalAddr.Port)
 		}
@@ -936,15 +944,50 @@ func (p *Process) getOpenPorts(ports *types.ProcessPorts) error {
 }
 
 func (p *Process) getExitCode() int {
-	defer p.confMtx.Unlock()
-	p.confMtx.Lock()
+	defer p.stateMtx.Unlock()
+	p.stateMtx.Lock()
 	return p.procState.ExitCode
 }
 
 func (p *Process) setExitCode(code int) {
-	defer p.confMtx.Unlock()
-	p.confMtx.Lock()
+	defer p.stateMtx.Unlock()
+	p.stateMtx.Lock()
 	p.procState.ExitCode = code
+}
+
+func (p *Process) getRestarts() int {
+	defer p.stateMtx.Unlock()
+	p.stateMtx.Lock()
+	return p.procState.Restarts
+}
+
+func (p *Process) incRestarts() int {
+	defer p.stateMtx.Unlock()
+	p.stateMtx.Lock()
+	p.procState.Restarts += 1
+	return p.procState.Restarts
+}
+
+func (p *Process) getHealth() string {
+	defer p.stateMtx.Unlock()
+	p.stateMtx.Lock()
+	return p.procState.Health
+}
+
+func (p *Process) setHealth(health string) {
+	defer p.stateMtx.Unlock()
+	p.stateMtx.Lock()
+	p.procState.Health = health
+}
+
+func (p *Process) compareAndSetHealth(from, to string) bool {
+	defer p.stateMtx.Unlock()
+	p.stateMtx.Lock()
+	if p.procState.Health != from {
+		return false
+	}
+	p.procState.Health = to
+	return true
 }
 
 // set elevated process password
